@@ -244,7 +244,14 @@ func intsWalk(fd *ast.FuncDecl) []string {
 			}
 			out = append(out, "WUnknown")
 		case *ast.DeferStmt:
-			if key != "" && set != "" && intsX(s.Call) == "delete("+recv+"."+set+", "+key+")" {
+			// defer delete(b.<set>, key); when it comes BEFORE the re-entrancy test it is what names the set
+			call := intsX(s.Call)
+			if key != "" && set == "" && strings.HasPrefix(call, "delete("+recv+".") && strings.HasSuffix(call, ", "+key+")") {
+				if f := strings.TrimSuffix(strings.TrimPrefix(call, "delete("+recv+"."), ", "+key+")"); !strings.ContainsAny(f, ".[(, ") {
+					set = f
+				}
+			}
+			if key != "" && set != "" && call == "delete("+recv+"."+set+", "+key+")" {
 				out = append(out, "WDeferUnmark")
 			} else {
 				out = append(out, "WUnknown")
